@@ -63,6 +63,10 @@ Definition C06_quic_roundtrip_stmt : Prop :=
     covers_all (enc_handshake h) (concat packets) = true ->
     extract_sni_linear (fold_left reassemble_frags packets []) = raw_name_of h.
 
+Definition C06_frames_roundtrip_stmt : Prop :=
+  forall (fs : list qframe) (offsets : list frag),
+    wf_frames fs -> reassemble offsets (enc_frames fs) = ROk (reassemble_frags offsets (cryptos fs)).
+
 Definition C06_replay_exact_stmt : Prop :=
   forall script : list rd,
     let '(r, st, rest) := sniff_tcp script in
